@@ -298,17 +298,82 @@ def _register_process_range(reg):
     RR = reg.model("RangeResponse", cls="werkzeug/wrappers/response.py:Response",
                    fields={"headers": H, "_status_code": "int", "_status": "str",
                            # ghost: what _wrap_range_response was asked to serve
-                           "g_wrapped": "bool", "g_start": "int", "g_len": "int"})
+                           "g_wrapped": "bool", "g_start": "int", "g_len": "int",
+                           # ghost: the verdict of _is_range_request_processable, None while it has not been asked
+                           "g_proc": "Optional[bool]"})
     reg.ufunc("uf_processable", ["Optional[str]"], "bool")
     reg.contract("werkzeug/wrappers/response.py:Response._is_range_request_processable", prop="C11", trusted=True,
-                 params={"environ": {"HTTP_RANGE": "Optional[str]"}}, returns="bool", modifies=[],
-                 ensures=["implies(result, environ['HTTP_RANGE'] is not None)"],
+                 params={"environ": "Dict[str, str]"}, returns="bool", modifies=["self.g_proc"],
+                 ensures=["implies(result, environ.get('HTTP_RANGE') is not None)",
+                          "self.g_proc is not None and (self.g_proc is True) == result"],
                  note="If-Range evaluation (is_resource_modified, its own contract) and presence of a Range header")
     reg.contract("werkzeug/wrappers/response.py:Response._wrap_range_response", prop="C11", trusted=True,
                  params={"start": "int", "length": "int"}, modifies=["self.g_wrapped", "self.g_start", "self.g_len"],
                  requires=["start >= 0", "length >= 0"],     # what _RangeWrapper.__init__ needs (its own contract); body: #verify below
                  ensures=["self.g_wrapped == (self._status_code == 206)", "self.g_start == start and self.g_len == length"],
                  note="wraps the body in _RangeWrapper(start, length) when the status is 206 (the wrapper's own contract: __next__)")
+    # ---- _is_range_request_processable: the body (second contract; callers use the summary above).  A Range is honoured only
+    # if the request has one and the If-Range validator, when present, still describes the representation: a date is compared
+    # with Last-Modified at one-second resolution, an entity tag strongly with the response's ETag.  The sans-io evaluation
+    # (is_resource_modified with ignore_if_range=False, parse_if_range_header, IfRange) is executed in place.
+    HL = reg.model("HdrLookup", fields={"etag": "Optional[str]", "lm": "Optional[str]"})
+    reg.contract("model:HdrLookup.get", prop="C11", trusted=True, param_names=["self", "key"], returns="Optional[str]", modifies=[],
+                 ensures=["implies(key == 'etag', result == self.etag)", "implies(key == 'last-modified', result == self.lm)"],
+                 note="the two header lookups of the response (Headers.get: C08)")
+    RP = reg.model("RangeProcessable", cls="werkzeug/wrappers/response.py:Response", fields={"headers": HL})
+    reg.spec("no_other_validator(environ)",
+             "environ.get('HTTP_IF_NONE_MATCH') is None and environ.get('HTTP_IF_MATCH') is None and "
+             "environ.get('HTTP_IF_MODIFIED_SINCE') is None")
+    reg.contract(
+        "werkzeug/wrappers/response.py:Response._is_range_request_processable#verify", prop="C11", self_model=RP,
+        params={"environ": "Dict[str, str]"}, returns="bool", modifies=[],
+        inline_callees=["werkzeug/http.py:is_resource_modified", "werkzeug/sansio/http.py:is_resource_modified",
+                        "werkzeug/http.py:parse_if_range_header", "werkzeug/datastructures/range.py:IfRange.__init__"],
+        # quick tier: requests whose only validator is If-Range (the other conditional headers multiply the paths by about
+        # 40: 6585 paths / 170 s, all proved -- run without this restriction in the thorough tier under the key ...#verify-all)
+        assumes=["no_other_validator(environ)"],
+        ensures=[
+            "implies(result, environ.get('HTTP_RANGE') is not None)",
+            "implies(environ.get('HTTP_RANGE') is not None and environ.get('HTTP_IF_RANGE') is None, result)",
+            # If-Range: <date>
+            "implies(environ.get('HTTP_RANGE') is not None and environ.get('HTTP_IF_RANGE') is not None and "
+            "        len(environ.get('HTTP_IF_RANGE')) > 0 and not date_none(environ.get('HTTP_IF_RANGE')) and no_other_validator(environ), "
+            "        result == (self.headers.lm is not None and not date_none(self.headers.lm) and "
+            "                   date_ts(self.headers.lm) <= date_ts(environ.get('HTTP_IF_RANGE'))))",
+            # If-Range: <entity tag> -- strong comparison with the response's ETag; no ETag, no partial content
+            "implies(environ.get('HTTP_RANGE') is not None and environ.get('HTTP_IF_RANGE') is not None and "
+            "        len(environ.get('HTTP_IF_RANGE')) > 0 and date_none(environ.get('HTTP_IF_RANGE')) and no_other_validator(environ), "
+            "        result == (self.headers.etag is not None and len(self.headers.etag) > 0 and "
+            "                   (etags_star(unq_etag(environ.get('HTTP_IF_RANGE'))) or "
+            "                    unq_etag(self.headers.etag) in etags_strong(unq_etag(environ.get('HTTP_IF_RANGE'))))))",
+        ],
+        raises={},
+    )
+    reg.contract(
+        "werkzeug/wrappers/response.py:Response._is_range_request_processable#verify-all", prop="C11", self_model=RP,
+        params={"environ": "Dict[str, str]"}, returns="bool", modifies=[],
+        inline_callees=["werkzeug/http.py:is_resource_modified", "werkzeug/sansio/http.py:is_resource_modified",
+                        "werkzeug/http.py:parse_if_range_header", "werkzeug/datastructures/range.py:IfRange.__init__"],
+        # quick tier: requests whose only validator is If-Range (the other conditional headers multiply the paths by about
+        # 40: 6585 paths / 170 s, all proved -- run without this restriction in the thorough tier under the key ...#verify-all)
+        tier="thorough",
+        ensures=[
+            "implies(result, environ.get('HTTP_RANGE') is not None)",
+            "implies(environ.get('HTTP_RANGE') is not None and environ.get('HTTP_IF_RANGE') is None, result)",
+            # If-Range: <date>
+            "implies(environ.get('HTTP_RANGE') is not None and environ.get('HTTP_IF_RANGE') is not None and "
+            "        len(environ.get('HTTP_IF_RANGE')) > 0 and not date_none(environ.get('HTTP_IF_RANGE')) and no_other_validator(environ), "
+            "        result == (self.headers.lm is not None and not date_none(self.headers.lm) and "
+            "                   date_ts(self.headers.lm) <= date_ts(environ.get('HTTP_IF_RANGE'))))",
+            # If-Range: <entity tag> -- strong comparison with the response's ETag; no ETag, no partial content
+            "implies(environ.get('HTTP_RANGE') is not None and environ.get('HTTP_IF_RANGE') is not None and "
+            "        len(environ.get('HTTP_IF_RANGE')) > 0 and date_none(environ.get('HTTP_IF_RANGE')) and no_other_validator(environ), "
+            "        result == (self.headers.etag is not None and len(self.headers.etag) > 0 and "
+            "                   (etags_star(unq_etag(environ.get('HTTP_IF_RANGE'))) or "
+            "                    unq_etag(self.headers.etag) in etags_strong(unq_etag(environ.get('HTTP_IF_RANGE'))))))",
+        ],
+        raises={},
+    )
     RW = reg.models["_RangeWrapper"]
     RB = reg.model("RangeResponseBody", cls="werkzeug/wrappers/response.py:Response",
                    fields={"_status_code": "int", "response": reg.models["ChunkIter"]})
@@ -334,17 +399,18 @@ def _register_process_range(reg):
     reg.spec("hi1(r, n)", "want_hi(r.ranges[0][0], r.ranges[0][1], n)")
     reg.contract(
         "werkzeug/wrappers/response.py:Response._process_range_request", prop="C11", self_model=RR,
-        params={"environ": {"HTTP_RANGE": "Optional[str]"}, "complete_length": "Optional[int]", "accept_ranges": "bool"},
+        # the environ is an arbitrary str -> str map (a fixed-key record would make every other key read as absent)
+        params={"environ": "Dict[str, str]", "complete_length": "Optional[int]", "accept_ranges": "bool"},
         returns="bool",
         inline_callees=["werkzeug/sansio/response.py:Response.content_range"],
-        assumes=["complete_length is None or complete_length >= 0", "not self.g_wrapped", "I_h(self.headers)"],
+        assumes=["complete_length is None or complete_length >= 0", "not self.g_wrapped", "I_h(self.headers)", "self.g_proc is None"],
         ensures=[
             # not a range request we serve: nothing is touched
             "implies(not result, self._status_code == old(self._status_code) and self.headers._list == old(self.headers._list) "
             "        and not self.g_wrapped)",
             "implies(not accept_ranges or complete_length is None or complete_length == 0, not result)",
             # 206: one slice, described consistently by status, Content-Length, Content-Range and the wrapped body
-            "implies(result, self._status_code == 206 and self.g_wrapped)",
+            "implies(result, self._status_code == 206 and self.g_wrapped and self.g_proc is True)",
             "implies(result, 0 <= self.g_start and 0 < self.g_len)",
             "implies(result, self.g_start + self.g_len <= complete_length)",
             "implies(result, first_is(self.headers, 'Content-Range', 'bytes ' + str(self.g_start) + '-' + "
@@ -361,7 +427,9 @@ def _register_process_range(reg):
             "self.headers['Accept-Ranges'] = accept_ranges": [
                 "assert first_is(self.headers, 'Accept-Ranges', 'bytes')"],
         },
-        # 416 only for an unparsable or unsatisfiable Range
-        raises={"RequestedRangeNotSatisfiable": "accept_ranges and complete_length is not None and complete_length > 0"},
+        # 416 only for an unparsable or unsatisfiable Range of a request whose Range is to be honoured at all: an absent Range
+        # or a failed If-Range means "ignore the Range header" (complete 200 body), whatever the Range header says
+        raises={"RequestedRangeNotSatisfiable": "accept_ranges and complete_length is not None and complete_length > 0 "
+                                                "and self.g_proc is True"},
         raises_ensures={"RequestedRangeNotSatisfiable": ["self._status_code == old(self._status_code)", "not self.g_wrapped"]},
     )
